@@ -11,17 +11,21 @@ CONSTANTS L,          \* the configured maximum file size used in the domain
           AllOrders   \* TRUE: every permutation of the parts; FALSE: rotations of the canonical and the reversed order
 
 Name(j) == <<"0", "1", "2">>[j]
-Scen == <<
-  [kind |-> "single", reqs |-> <<JObj(<<Mem("file", JNull)>>)>>,
+\* the operations shapes, with value v at every file position (v = null is the customary placeholder; the
+\* placeholder family puts other JSON values there: the file replaces whatever stands at a mapped path)
+ScenV(v) == <<
+  [kind |-> "single", reqs |-> <<JObj(<<Mem("file", v)>>)>>,
    slots |-> << <<"variables", "file">> >>],
-  [kind |-> "single", reqs |-> <<JObj(<<Mem("a", JNull), Mem("keep", JStr("PLAIN")), Mem("b", JNull)>>)>>,
+  [kind |-> "single", reqs |-> <<JObj(<<Mem("a", v), Mem("keep", JStr("PLAIN")), Mem("b", v)>>)>>,
    slots |-> << <<"variables", "a">>, <<"variables", "b">> >>],
-  [kind |-> "single", reqs |-> <<JObj(<<Mem("files", JList(<<JNull, JNull>>)), Mem("meta", JObj(<<Mem("doc", JNull), Mem("n", JInt(1))>>))>>)>>,
+  [kind |-> "single", reqs |-> <<JObj(<<Mem("files", JList(<<v, v>>)), Mem("meta", JObj(<<Mem("doc", v), Mem("n", JInt(1))>>))>>)>>,
    slots |-> << <<"variables", "files", "0">>, <<"variables", "files", "1">>, <<"variables", "meta", "doc">> >>],
-  [kind |-> "batch", reqs |-> <<JObj(<<Mem("x", JNull)>>), JObj(<<Mem("x", JNull), Mem("y", JNull), Mem("keep", JStr("QUOTE"))>>)>>,
+  [kind |-> "batch", reqs |-> <<JObj(<<Mem("x", v)>>), JObj(<<Mem("x", v), Mem("y", v), Mem("keep", JStr("QUOTE"))>>)>>,
    slots |-> << <<"0", "variables", "x">>, <<"1", "variables", "x">>, <<"1", "variables", "y">> >>] >>
+Scen == ScenV(JNull)
 
 OpsOf(s) == [kind |-> Scen[s].kind, reqs |-> Scen[s].reqs]
+OpsV(s, v) == [kind |-> ScenV(v)[s].kind, reqs |-> ScenV(v)[s].reqs]
 RECURSIVE SeqOfSet(_)        \* a set of numbers as an increasing sequence
 SeqOfSet(T) == IF T = {} THEN <<>> ELSE LET m == CHOOSE x \in T : \A y \in T : x <= y IN <<m>> \o SeqOfSet(T \ {m})
 \* owner[slot] \in 0..k : which file field (0 = none) a slot is mapped to; entry j lists the slots owned by j
@@ -40,6 +44,7 @@ Rot(s, r) == [i \in 1..Len(s) |-> s[((i + r - 1) % Len(s)) + 1]]
 Orders(P) == IF AllOrders THEN {[i \in 1..Len(P) |-> P[pi[i]]] : pi \in Permutations(1..Len(P))}
              ELSE {Rot(P, r) : r \in 0..(Len(P) - 1)} \cup {Rot(Rev(P), r) : r \in 0..(Len(P) - 1)}
 TwoOrders(P) == {P, Rev(P)}
+Rots(P) == {Rot(P, r) : r \in 0..(Len(P) - 1)} \cup {Rot(Rev(P), r) : r \in 0..(Len(P) - 1)}
 
 \* binding family: every assignment of slots to <= MaxNames file fields, all files present, no limits, every order
 FamBind ==
@@ -70,12 +75,40 @@ FamLimits ==
     : fs \in { [j \in 1..m |-> FilePart(Name(j), sz[j])] : sz \in [1..m -> SizeSet] } }
     : o \in LimOpts } : <<s, m>> \in {3, 4} \X (0..MaxLim) }
 
+\* extra family: unmapped file parts around the count limit.  m mapped files (file j bound to slot j) and x file
+\* parts that the map does not mention, so that the mapped files alone are within max_num_files while all file
+\* parts are at / above it (and below it); the extras stand after the mapped files, before them, between
+\* operations and map, and in every rotation of these orders and their reversals.
+ExtraParts(x) == [i \in 1..x |-> FilePart(<<"8", "9">>[i], i)]
+FamExtra ==
+  UNION { UNION { UNION {
+      { Case("extra", OpsOf(s), MapOf(EntriesOf(s, m, Spread(s, m))), body, o) :
+          body \in LET fs == [j \in 1..m |-> FilePart(Name(j), j)] IN
+                   Rots(<<OpsPart, MapPart>> \o fs \o ExtraParts(x)) \cup Rots(<<OpsPart>> \o ExtraParts(x) \o <<MapPart>> \o fs) }
+    : o \in [maxSize : {0, L}, maxFiles : {1, 2}] } : x \in 1..2 } : <<s, m>> \in {3, 4} \X (0..2) }
+
+\* placeholder family: a non-null JSON value at every file position (mapped or not); every assignment of the
+\* slots to min(2, #slots) file fields (unmapped slots must keep their value), all files present, two orders;
+\* plus operations whose slots hold different values
+PHSet == { JStr("EMPTY"), JStr("PLAIN"), JInt(0), JFalse, JObj(<<>>), JList(<<>>), JObj(<<Mem("k", JNull)>>), JList(<<JNull>>) }
+Min2(n) == IF n < 2 THEN n ELSE 2
+MixedOps == [kind |-> "batch",
+             reqs |-> <<JObj(<<Mem("x", JStr("EMPTY"))>>), JObj(<<Mem("x", JInt(0)), Mem("y", JObj(<<>>)), Mem("keep", JStr("QUOTE"))>>)>>]
+FamPlaceholder ==
+  UNION { UNION {
+      { Case("placeholder", OpsV(s, v), MapOf(EntriesOf(s, Min2(Len(Scen[s].slots)), owner)), body, NoOpts) :
+          body \in TwoOrders(<<OpsPart, MapPart>> \o [j \in 1..Min2(Len(Scen[s].slots)) |-> FilePart(Name(j), j)]) }
+    : owner \in [1..Len(Scen[s].slots) -> 0..Min2(Len(Scen[s].slots))] } : <<s, v>> \in (1..Len(Scen)) \X PHSet }
+  \cup UNION {
+      { Case("placeholder", MixedOps, MapOf(EntriesOf(4, 2, owner)), body, NoOpts) :
+          body \in TwoOrders(<<OpsPart, MapPart, FilePart(Name(1), 1), FilePart(Name(2), 2)>>) }
+    : owner \in [1..3 -> 0..2] }
+
 \* duplicate family: the same file field name in two or three file parts (different sizes), alone and combined
 \* with entries whose file is missing.  Entry j is bound to slot j; mult[j] = number of parts named Name(j).
 RECURSIVE DupFrom(_, _, _)
 DupFrom(k, mult, j) == IF j > k THEN <<>> ELSE [t \in 1..mult[j] |-> FilePart(Name(j), 10 * j + t)] \o DupFrom(k, mult, j + 1)
 DupParts(k, mult) == DupFrom(k, mult, 1)
-Rots(P) == {Rot(P, r) : r \in 0..(Len(P) - 1)} \cup {Rot(Rev(P), r) : r \in 0..(Len(P) - 1)}
 FamDup ==
   UNION { UNION {
       { Case("dup", OpsOf(s), MapOf(EntriesOf(s, Len(Scen[s].slots), [q \in 1..Len(Scen[s].slots) |-> q])), body, NoOpts) :
@@ -103,7 +136,7 @@ FamBadPath ==
   \cup { Case("badpath", OpsOf(3), MapOf(<<[name |-> "0", paths |-> <<<<"variables", "files", "7">>, <<"variables", "files", "1">>>>]>>), <<OpsPart, MapPart, FilePart("0", 4)>>, NoOpts) }
   \cup { Case("badpath", OpsOf(4), MapOf(<<[name |-> "0", paths |-> <<p, <<"1", "variables", "y">>>>]>>), <<OpsPart, MapPart, FilePart("0", 4)>>, NoOpts) : p \in BadPathsBatch }
 
-AllCases == FamBind \cup FamPresence \cup FamLimits \cup FamDup \cup FamStruct \cup FamBadPath
+AllCases == FamBind \cup FamPresence \cup FamLimits \cup FamExtra \cup FamPlaceholder \cup FamDup \cup FamStruct \cup FamBadPath
 
 UInit == \E c \in AllCases : UInitFor(c)
 USpec    == UInit /\ [][UNext]_uvars /\ WF_uvars(UNext)
